@@ -19,10 +19,10 @@ PROPS = {
    rule="one evaluation = one simulated run of 20-120 pool operations (local/remote submissions over a generated tx DAG with chains, diamonds, shared cell deps, conflicting spends, RBF candidates, fees below/at/above the limits; removals; clock advances and expiry passes; block templates mined; model-built competing branches causing reorgs) with pool size 1.5-6 KB or unlimited and ancestor limit 3/5/25/125; after EVERY completed task and at every quiescent point a dump of entries/links/edges/aggregates/counters is recomputed from scratch and compared. distinct = hash of the executed op/poll sequence; non-trivial = a task was suspended at a yield point or a reorg crossed a fork point",
    assumptions=["the optional 'dep user precedes consumer' link (recorded by the pool only when the consumer arrives second) is accepted but not required", "RBF admission arithmetic (fee >= replaced fees + min_rbf_rate*size) is exercised but asserted only through pool consistency (no double spend, replaced set gone), not re-derived per replacement"]),
  "C12": dict(quick=600, thorough=40000,
-   rule="one evaluation = one simulated run interleaving submissions (suspended at yield points inside _process_tx), block templates mined on the node, and model-built competing branches that commit/propose the same candidate transactions, with reorg notifications queued and processed at simulator-chosen moments; at every quiescent point (all tasks done, pool snapshot == chain tip): no pooled tx is committed on the main chain, every input/dep is live in the model's live-cell set or created by a pooled tx, no cell is spent twice in the pool, and each entry's stage equals the model's proposal-window membership (mining node). non-trivial as C11",
+   rule="one evaluation = one simulated run interleaving submissions (suspended at yield points inside _process_tx), block templates mined on the node, and model-built competing branches that commit/propose the same candidate transactions, with reorg notifications queued and processed at simulator-chosen moments; at every quiescent point (all tasks done, pool snapshot == chain tip): no pooled tx is committed on the main chain, every input/dep is live in the model's live-cell set or created by a pooled tx, no cell is spent twice in the pool, and each entry's stage equals the model's proposal-window membership (mining node). Half of the runs carry transactions with absolute block-number time locks at the boundary of the earliest commit position and transactions that spend the reward cell of a recent block (cellbase maturity zero); planted shapes: an expired proposal re-opened by a shorter heavier branch, an id that leaves the committable set in the block that proposes it again, a cell that one pooled transaction spends and another references being spent on the chain by a third one, and (clean-detach configuration) a branch that commits a WITNESS VARIANT of a detached transaction whose pooled child must stay (ExpectPooled). non-trivial as C11",
    assumptions=["'still admissible detached transactions are back in the pool' is asserted only where admissibility is unambiguous: the reorganisation starts from a pool at rest and is followed by a quiescent point with nothing in between, the pool has no size limit and an ancestor limit out of reach, every input and dep of the returning transaction is live on the new chain, it has no time lock or cellbase input, pays at least twice the minimum fee and nothing else spends its inputs (probes detached_admissible_tx_checked / detached_tx_admissibility_ambiguous)", "one run in three uses the clean-detach configuration"]),
  "C13": dict(quick=500, thorough=30000,
-   rule="one evaluation = one simulated run as C12; every Mine op requests a template at that instant (block-assembler updates possibly still queued), seals it and feeds it to the node's own insert/preload/verify stages: the verdict must be Ok and, when the template names the current tip, the block must become the tip; transactions must appear parents-first; the reference model independently re-derives epoch, reward, DAO, chain root, window, uncle rules and the size / cycle / proposal limits of every template block; two runs out of five use consensus limits small enough (1.2-4 KB, 2-8 script groups, 1-6 proposals) for the block assembler's accounting to decide what fits (probes template_at_*_limit). non-trivial as C11",
+   rule="one evaluation = one simulated run as C12; every Mine op requests a template at that instant (block-assembler updates possibly still queued), seals it and feeds it to the node's own insert/preload/verify stages: the verdict must be Ok and, when the template names the current tip, the block must become the tip; transactions must appear parents-first; the reference model independently re-derives epoch, reward, DAO, chain root, window, uncle rules and the size / cycle / proposal limits of every template block; two runs out of five use consensus limits small enough (1.2-4 KB, 2-8 script groups, 1-6 proposals) for the block assembler's accounting to decide what fits (probes template_at_*_limit). Half of the runs carry time-locked transactions (absolute block number at / just below / one above the earliest commit position) and transactions spending recent reward cells; one run in five of those without small limits plants 'chain A into its second epoch, submit a transaction locked until A's earliest commit position (optionally mined on A), a SHORTER but heavier branch B takes over (optionally the submitter tries again), four templates mined'. non-trivial as C11",
    assumptions=["templates that name a stale parent are stored as side blocks and therefore NOT verified by the node (probes.stale_templates_not_verified); for those the reference model alone judges validity on the named parent (class stale_parent_template_invalid) - the same model is cross-checked against the node on every on-tip template", "HeaderVerifier (timestamp/PoW) is not part of the pipeline here"]),
  "C04": dict(quick=500, thorough=30000,
    rule="one evaluation = one simulated run: a pool/chain history as in C11-C13 (submissions, templates mined, model-built competing branches and reorgs, clock advances) with 8-30 PROBE operations at arbitrary points. A probe is a transaction built against the context of that moment with at most one rule-breaking field placed exactly at, one unit before or one unit after the boundary of the evaluation position: since in all six kinds (absolute/relative x block number / epoch fraction / median time) plus malformed encodings (metric 0b11, reserved flag bits, index >= length, zero-length fraction), cellbase maturity (newest mature / oldest immature cellbase output, as input and as cell dep, maturity 0, 1/2, 3/4, 1, 2+1/3 epochs), capacity (outputs = inputs + 1 shannon, an output exactly at / one shannon below its occupied size, zero fee), liveness (spent / unknown / duplicated inputs, output of a pooled, committed or unknown parent; spent / unknown cell deps), header deps (main chain / delivered side chain / unknown) and a witness-dependent lock (passing / failing program). ProbePool asks the real pool (test_accept_transaction at a quiescent point; position = earliest commit block as documented in script/src/verify_env.rs); ProbeBlock lets the model propose the probe on the tip and commit it in the first legal block, which the node's block verification accepts or rejects (position = that block). Oracle: an evaluator written from the property text and RFC 0017 over the model's live-cell set; verdicts must agree in both directions. A second part (300 runs quick) runs in chain mode: candidate transactions get conflicting twins that break exactly one rule of their own (outputs exceed inputs by one shannon, an output one shannon below its occupied size, a NervosDAO phase-2 withdrawal claiming one shannon more than deposit plus interest or carrying an output below its occupied size) and blocks anywhere in a tree with reorganisations commit such a twin, a time-locked or a never-proposed transaction: no chain containing such a block may ever be attached, while every chain of valid transactions must be. History independence follows because the oracle is a function of (transaction, context) only while contexts are reached through arbitrary histories (reorgs, pool states, caches). distinct = hash of the executed op/poll sequence; non-trivial = at least one probe was evaluated",
